@@ -4,6 +4,7 @@ package main
 
 import (
 	"fmt"
+	"sort"
 	"go/ast"
 	"go/parser"
 	"go/token"
@@ -1242,6 +1243,32 @@ func (e *Env) callExpr(x *ast.CallExpr) TV {
 	case "upd":
 		m, k, v := e.eval(x.Args[0]), e.eval(x.Args[1]), e.eval(x.Args[2])
 		return TV{T: sx("store", m.T, k.T, v.T), Ty: m.Ty}
+	case "visited":
+		// visited(k): key k of the map ranged over by the current loop has been visited already
+		if e.loop == nil || e.fn == nil {
+			specErr("visited() outside a loop invariant")
+		}
+		k := e.eval(x.Args[0])
+		// the current loop, or the innermost enclosing loop, that ranges over a map
+		var cands []*loopInfo
+		cands = append(cands, e.loop)
+		for _, l := range findLoops(e.fn) {
+			if l.header != e.loop.header && l.blocks[e.loop.header] {
+				cands = append(cands, l)
+			}
+		}
+		sort.Slice(cands[1:], func(i, j int) bool { return len(cands[1+i].blocks) < len(cands[1+j].blocks) })
+		for _, l := range cands {
+			for _, ins := range l.header.Instrs {
+				if nx, ok := ins.(*ssa.Next); ok {
+					if rs, ok := u.ranges[nx.Iter]; ok {
+						mt := rs.mapT.Underlying().(*types.Map)
+						return TV{T: sx("select", u.heap(e.st, rs.visited, arrSort(u.ty.sortOf(mt.Key()), SBool)), k.T), Ty: tBool}
+					}
+				}
+			}
+		}
+		specErr("visited(): no enclosing loop ranges over a map")
 	case "alloc":
 		return TV{T: u.alloc(e.st), Ty: tInt}
 	case "fresh":
